@@ -181,14 +181,14 @@ func VerifC06LockWait(h *verifh.H) {
 		}
 	})
 	if !h.Symbolic() {
-		time.Sleep(100 * time.Millisecond) // natively: let the writer reach the lock
+		h.Pause(200 * time.Millisecond) // natively: let the writer reach the lock
 	} else {
 		h.Yield()
 	}
 	sn := hs.vEvalNow(h)
 	sn.t = time.Now().UnixNano()
 	if !h.Symbolic() {
-		time.Sleep(2 * time.Millisecond)
+		h.Pause(2 * time.Millisecond)
 	}
 	ds.WriteLock.Unlock()
 	h.Assert(h.Wait(), "the waiting writer completes")
